@@ -157,6 +157,31 @@ theorem reader_never_alters :
   rw [hb]
   cases b <;> decide
 
+/-- **No handler closes an unfinished file.**  Neither `export()` nor anything on the
+    file-backed PT-TEMPO writing path calls `close()` / `remove()` (which clears the flag) from
+    an `except` or `finally` block: on the source as it is now, the only way to `close()` is
+    the normal path, after every tensor was written. -/
+theorem unwind_never_closes : flags.exportUnwind = [] ∧ flags.ptTempoUnwind = [] := by
+  decide
+
+/-- **Interrupted by an exception** (an error or KeyboardInterrupt raised after the writer's
+    `k`-th operation, before `close()` started; everything issued so far persisted, and the
+    library's handlers run while the exception unwinds): the file left behind is not opened
+    silently.  `unwind` is the handler list of the writer in question. -/
+theorem exception_interrupted_never_clean (env : Env) (d0 : Disk) (m : Meta) (cmds : List Cmd)
+    (mode : String) (hmode : mode = "write" ∨ mode = "overwrite") (w : W)
+    (hrun : writerW flags env d0 mode m cmds true = .ok w)
+    (unwind : List UnwindStep) (hu : unwind = flags.exportUnwind ∨ unwind = flags.ptTempoUnwind)
+    (rm : Bool) (n k : Nat) (hk1 : 1 ≤ k) (hk : k + 2 ≤ w.trace.length) :
+    readOutcome flags (excState flags rm unwind d0 w.trace n k) ≠ .clean := by
+  have hnil : unwind = [] := by
+    rcases hu with h | h
+    · rw [h]; exact unwind_never_closes.1
+    · rw [h]; exact unwind_never_closes.2
+  subst hnil
+  exact interrupted_never_clean env d0 m cmds mode hmode w hrun k hk _
+    (excState_crashState flags rm d0 w.trace n k hk1)
+
 /-! ### non-vacuity -/
 
 def m0 : Meta := ⟨2, some (mkRat 1 10), none, none, "pt", "d"⟩
